@@ -152,18 +152,66 @@ def _accessor(fb, fn, n, bases):
     cls, _, name = n['q'].rpartition('::')
     if cls not in bases:
         return None
-    rv = fn.root_var(n['recv'])
-    if rv is None or rv[0] != 'var':
+    # the receiver must be the parameter itself (possibly dereferenced or aliased by a named local), not something reached through it
+    i = _param_of(fn, n['recv'])
+    if i is None:
         return None
-    # the receiver must be the parameter itself (possibly dereferenced), not something reached through it
-    r = fn.sn(n['recv'])
-    while r is not None and r.get('k') == 'unop' and r.get('op') == '*':
-        r = fn.sn(r['sub'])
-    if r is None or r.get('k') != 'var':
+    return name, i
+
+
+def _local_init(fn, d):
+    """initialiser expression of a local that is never re-assigned (a named sub-expression), else None"""
+    inits = []
+    for n in fn.all_nodes():
+        k = n.get('k')
+        if k == 'decl':
+            for v in n['vars']:
+                if v['d'] == d and isinstance(v.get('init'), int):
+                    inits.append(v['init'])
+        elif k == 'assign' or (k == 'unop' and n.get('op') in ('++', '--')):
+            l = fn.sn(n['lhs'] if k == 'assign' else n['sub'])
+            if l is not None and l.get('k') == 'var' and l.get('d') == d:
+                return None
+    return inits[0] if len(inits) == 1 else None
+
+
+def _resolve(fn, nid, hops=6):
+    """look through named locals: `const auto x = <expr>; ... x ...` is read as <expr>"""
+    while hops > 0 and nid is not None:
+        hops -= 1
+        n = fn.sn(nid)
+        if n is not None and n.get('k') == 'var' and n.get('vk') == 'local':
+            init = _local_init(fn, n['d'])
+            if init is None:
+                break
+            nid = init
+        else:
+            break
+    return nid
+
+
+def _rsn(fn, nid):
+    return fn.sn(_resolve(fn, nid))
+
+
+def _param_of(fn, nid, hops=6):
+    """expression is a parameter of fn, possibly dereferenced / address-taken / aliased by a named local -> its index"""
+    while hops > 0 and nid is not None:
+        hops -= 1
+        n = fn.sn(nid)
+        while n is not None and n.get('k') == 'unop' and n.get('op') in ('*', '&'):
+            n = fn.sn(n['sub'])
+        if n is None or n.get('k') != 'var':
+            return None
+        if n.get('vk') == 'param':
+            for i, p in enumerate(fn.params):
+                if p['d'] == n['d']:
+                    return i
+            return None
+        if n.get('vk') == 'local':
+            nid = _local_init(fn, n['d'])
+            continue
         return None
-    for i, p in enumerate(fn.params):
-        if p['d'] == rv[1]:
-            return name, i
     return None
 
 
@@ -171,12 +219,12 @@ def _single_return(fn):
     rets = [n for n in fn.all_nodes() if n.get('k') == 'return']
     if len(rets) != 1 or 'sub' not in rets[0]:
         return None
-    return rets[0]['sub']
+    return _resolve(fn, rets[0]['sub'])
 
 
 def canon(fn, nid, ren):
     """Canonical structural form of a pure expression; parameters renamed through ren {decl id: role}; && / || as sets."""
-    n = fn.sn(nid)
+    n = _rsn(fn, nid)
     if n is None:
         return ('?',)
     k = n.get('k')
@@ -255,11 +303,28 @@ def _id_order_prog(fb, R, report=True):
         prog = OT.compile_function(fb, fn)
         OT._binary_params(prog, None)
     except OT.Inexact as e:
-        if report:
-            R.broken('O1-id_order-comparison-only: id_order is no longer comparison-only, the order-type abstraction is not exact '
-                     '(%s at %s); C16 cannot be decided statically for this body' % (e, e.site))
+        if report and e.kind == 'arithmetic':
+            # the id rule is required to be a pure comparison of the ids: computing with them (negation, abs, subtraction ...)
+            # is what broke INT64_MIN in 2.17.2 -- reported as a violation of the rule, not as an undecidable shape
+            R.bad('O1-id_order-comparison-only', ID_ORDER, e.site or fn.site,
+                  'id_order computes with the ids instead of only comparing them (%s); such arithmetic overflows / changes the order '
+                  'at the ends of the 64-bit range (e.g. -INT64_MIN), the ordering is no longer decidable by comparison alone' % e)
+            _degrade(R, 'O2-id_order-strict-weak-order', 'O3-id_order-documented-rule', 'T4-id-key-agrees-with-id_order')
+        elif report:
+            R.broken('O1-id_order-comparison-only: id_order has a shape the order-type engine does not model (%s at %s); C16 cannot be '
+                     'decided statically for this body' % (e, e.site))
         return fn, None
     return fn, prog
+
+
+def _degrade(R, *rules):
+    """A violation has been reported that makes these dependent rules unevaluable: their instance floors are waived for this run
+    (the run ends with exit 1 because of the reported violation, never with a pass)."""
+    d = getattr(R, 'c16_degraded', None)
+    if d is None:
+        d = set()
+        R.c16_degraded = d
+    d.update(rules)
 
 
 def id_order_rules(fb, R):
@@ -287,10 +352,10 @@ def id_order_rules(fb, R):
 
 def _tuple_args(fn, nid):
     """Component expression ids of an expression of type std::tuple<...> built by a call (const_tie / std::tie / ...)."""
-    n = fn.sn(nid)
+    n = _rsn(fn, nid)
     hops = 0
     while n is not None and n.get('k') == 'construct' and n.get('copymove') and len(n.get('args', [])) == 1 and hops < 4:
-        n = fn.sn(n['args'][0])
+        n = _rsn(fn, n['args'][0])
         hops += 1
     if n is None or not OT._plain_type(n.get('t', '')).startswith('std::tuple<'):
         return None, None
@@ -340,7 +405,7 @@ def tuple_rules(fb, R, idprog):
             found += 1
             key = _key(fn)
             ret = _single_return(fn)
-            top = fn.sn(ret) if ret is not None else None
+            top = _rsn(fn, ret) if ret is not None else None
             ok_shape = (top is not None and top.get('k') == 'call' and top.get('q') == 'std::operator<' and len(top.get('args', [])) == 2)
             ln = rn = None
             if ok_shape:
@@ -381,13 +446,13 @@ def tuple_rules(fb, R, idprog):
                     continue
                 side = next(iter(rs))
                 d = '+' if side == 'A' else '-'
-                n = fn.sn(largs[i])
+                n = _rsn(fn, largs[i])
                 a = _accessor(fb, fn, n, bases)
                 if a is not None and a[0] in ACCESSOR_KEYS:
                     keys.append((ACCESSOR_KEYS[a[0]], d))
                 elif n is not None and OT._plain_type(n.get('t', '')) == 'bool':
                     keys.append(('idflag', d))
-                    flags.append((i, largs[i], side))
+                    flags.append((i, _resolve(fn, largs[i]), side))
                 else:
                     keys.append(('other:' + fn.expr(largs[i]), d))
             R.check(not twosided, 'T2-component-one-sided', key, fn.loc(top['id']),
@@ -459,7 +524,10 @@ def timestamp_order_rule(fb, R):
                     'Timestamp comparison is not `<` on the timestamp value, tuple comparators using it are not strict weak orders: %s'
                     % (diff[0] if diff else ''))
         except OT.Inexact as e:
-            R.broken('%s is not comparison-only over the timestamp value (%s)' % (_key(fn), e))
+            if e.kind == 'arithmetic':
+                R.bad('T2-component-one-sided', key, e.site or fn.site, 'Timestamp comparison computes with the values (%s)' % e)
+            else:
+                R.broken('%s is not comparison-only over the timestamp value (%s)' % (_key(fn), e))
 
 
 def _fmt_keys(keys):
@@ -551,12 +619,12 @@ def accessor_rules(fb, R):
             if unsigned is None or unsigned == 'bool' or unsigned[0] != 0 or unsigned[1] < 2 ** 63:
                 n = None
                 break
-            n = fn.sn(n['sub'])
+            n = _rsn(fn, n['sub'])
             hops += 1
         ok = (n is not None and n.get('k') == 'call' and n.get('q') in ('std::abs', 'abs', 'labs', 'llabs', 'std::labs', 'std::llabs')
               and len(n.get('args', [])) == 1)
         if ok:
-            a = fn.sn(n['args'][0])
+            a = _rsn(fn, n['args'][0])
             ok = a is not None and a.get('k') == 'member' and a.get('field') and fn.is_this_member(a['id']) and (fid is None or a['q'] == fid)
             ok = ok and OT.domain_of_type(a.get('t'), True) == OT.INT64
         R.check(bool(ok), rule, OBJ + '::positive_id#abs-of-id', fn.site,
@@ -604,7 +672,11 @@ def equality_rules(fb, R):
             except _Missing as e:
                 R.bad(rule, key, fn.site, 'equality does not read %s (must compare exactly %s)' % (e, ', '.join(want)))
             except OT.Inexact as e:
-                R.broken('%s: not a comparison-only function of the accessors (%s)' % (key, e))
+                if e.kind == 'arithmetic':
+                    R.bad(rule, key, e.site or fn.site, 'equality computes with the attributes instead of comparing %s for equality (%s)'
+                          % (', '.join(want), e))
+                else:
+                    R.broken('%s: not a comparison-only function of the accessors (%s)' % (key, e))
     if n < 2:
         R.broken('operator==(OSMObject) / object_equal_type_id::operator() not found')
 
@@ -627,10 +699,10 @@ def _sem(fb, fn, depth=0):
     if ret is None:
         return (False, fn, (0, 1))
     neg = False
-    n = fn.sn(ret)
+    n = _rsn(fn, ret)
     while n is not None and n.get('k') == 'unop' and n['op'] == '!':
         neg = not neg
-        n = fn.sn(n['sub'])
+        n = _rsn(fn, n['sub'])
     if n is None or n.get('k') != 'call' or 'u' not in n or len(n.get('args', [])) != 2:
         return (False, fn, (0, 1))
     cands = [g for g in fb.by_usr.get(n['u'], []) if _two_obj_fn(fb, g)]
@@ -639,16 +711,10 @@ def _sem(fb, fn, depth=0):
     g = cands[0]
     perm = []
     for a in n['args']:
-        rv = fn.root_var(a)
-        x = fn.sn(a)
-        while x is not None and x.get('k') == 'unop' and x.get('op') == '*':
-            x = fn.sn(x['sub'])
-        if rv is None or rv[0] != 'var' or x is None or x.get('k') != 'var':
+        i = _param_of(fn, a)
+        if i is None:
             return None
-        idx = [i for i, p in enumerate(fn.params) if p['d'] == rv[1]]
-        if not idx:
-            return None
-        perm.append(idx[0])
+        perm.append(i)
     sub = _sem(fb, g, depth + 1)
     if sub is None:
         return None
@@ -732,8 +798,19 @@ def check_order_rules(fb, R):
         try:
             prog = OT.compile_function(fb, fn, atoms)
         except OT.Inexact as e:
-            R.broken('%s is not comparison-only over (id, stored maxima, flags): %s at %s' % (fn.q, e, e.site))
-            return
+            if e.kind != 'arithmetic':
+                R.broken('%s has a shape the order-type engine does not model: %s at %s' % (fn.q, e, e.site))
+                return
+            # the handler computes with ids (arithmetic / library function): the specification needs the new maximum to BE the
+            # accepted id and the decision to depend on the id order only
+            if e.context and e.context[0] == 'store':
+                rl, msg = 'K3-accept-updates-state', 'the state update of %s is computed from the ids instead of being the accepted id' % e.context[1]
+            else:
+                rl, msg = 'K2-accepts-iff-ascending', 'the accept/reject decision computes with the ids instead of comparing them under the id rule'
+            R.bad(rl, fn.q, e.site or fn.site, '%s (%s)' % (msg, e))
+            info.append({'rank': rank, 'fn': fn, 'cls': cls, 'runs': [], 'max': set(), 'flag': set(),
+                         'why': 'the handler is not comparison-only over the ids (%s)' % msg})
+            continue
         ints, bools, consts = prog.symbols()
         # every field of the record is part of the world (so "nothing else changes" is checked against all of them)
         for name, kind in fields.items():
@@ -765,6 +842,8 @@ def check_order_rules(fb, R):
                     flagf.add(f)
         info.append({'rank': rank, 'fn': fn, 'cls': cls, 'runs': runs, 'max': maxf, 'flag': flagf})
     for h in info:
+        if 'why' in h:
+            continue
         if len(h['max']) != 1 or len(h['flag']) != 1:
             h['why'] = ('the handler must record the accepted id in exactly one maximum field and set exactly one seen-flag; it stores the '
                         'id in %s and sets %s' % (sorted(h['max']), sorted(h['flag'])))
@@ -847,10 +926,10 @@ def check_order_rules(fb, R):
 
 def _vec_iter_call(fn, nid, which, vec=None):
     """expression is <this->vector member>.begin()/end() -> member name"""
-    n = fn.sn(nid)
+    n = _rsn(fn, nid)
     hops = 0
     while n is not None and n.get('k') == 'construct' and len(n.get('args', [])) == 1 and hops < 4:
-        n = fn.sn(n['args'][0])
+        n = _rsn(fn, n['args'][0])
         hops += 1
     if n is None or n.get('k') != 'call' or n.get('q') not in ('std::vector::' + which,) or n.get('recv') is None or n.get('args'):
         return None
@@ -864,14 +943,14 @@ def _vec_iter_call(fn, nid, which, vec=None):
 
 def _is_forwarded_param(fn, nid, param):
     """expression is the parameter itself, std::forward/std::move of it, or a copy/move construction of that."""
-    n = fn.sn(nid)
+    n = _rsn(fn, nid)
     hops = 0
     while n is not None and hops < 6:
         hops += 1
         if n.get('k') == 'construct' and n.get('copymove') and len(n.get('args', [])) == 1:
-            n = fn.sn(n['args'][0])
+            n = _rsn(fn, n['args'][0])
         elif n.get('k') == 'call' and n.get('q') in ('std::forward', 'std::move') and len(n.get('args', [])) == 1:
-            n = fn.sn(n['args'][0])
+            n = _rsn(fn, n['args'][0])
         else:
             break
     return n is not None and n.get('k') == 'var' and n.get('vk') == 'param' and n.get('d') == param['d']
@@ -967,21 +1046,27 @@ def run(ctx):
     for cfg in configs:
         fb = ctx.facts(['core'], cfg)
         all_rules(fb, R)
-    R.expect('O1-id_order-comparison-only', 1)
-    R.expect('O2-id_order-strict-weak-order', 5)
-    R.expect('O3-id_order-documented-rule', 1)
-    R.expect('T1-tuple-mirror', 4)           # 3 comparators + const_tie
-    R.expect('T2-component-one-sided', 7)    # 3 x (sidedness, element types) + Timestamp operator<
-    R.expect('T3-component-keys', 3)
-    R.expect('T4-id-key-agrees-with-id_order', 6)   # 3 x (flag is id>0, key pair vs id_order)
-    R.expect('T5-id-accessors', 2)
-    R.expect('E1-equality-reads-type-id-version', 2)
-    R.expect('D1-delegation-preserves-meaning', 11)
-    R.expect('K1-rejects-later-type', 2)     # node, way (relation has no later type)
-    R.expect('K2-accepts-iff-ascending', 3)
-    R.expect('K3-accept-updates-state', 3)
-    R.expect('S1-sort-forwards-comparator', 1)
-    R.expect('S2-unique-forwards-and-erases', 1)
+    floors = [
+        ('O1-id_order-comparison-only', 1),
+        ('O2-id_order-strict-weak-order', 5),
+        ('O3-id_order-documented-rule', 1),
+        ('T1-tuple-mirror', 4),           # 3 comparators + const_tie
+        ('T2-component-one-sided', 7),    # 3 x (sidedness, element types) + Timestamp operator<
+        ('T3-component-keys', 3),
+        ('T4-id-key-agrees-with-id_order', 6),   # 3 x (flag is id>0, key pair vs id_order)
+        ('T5-id-accessors', 2),
+        ('E1-equality-reads-type-id-version', 2),
+        ('D1-delegation-preserves-meaning', 11),
+        ('K1-rejects-later-type', 2),     # node, way (relation has no later type)
+        ('K2-accepts-iff-ascending', 3),
+        ('K3-accept-updates-state', 3),
+        ('S1-sort-forwards-comparator', 1),
+        ('S2-unique-forwards-and-erases', 1),
+    ]
+    degraded = getattr(R, 'c16_degraded', set())
+    for rule, n in floors:
+        # a floor is waived only when a reported violation (see _degrade) makes the dependent rule unevaluable
+        R.expect(rule, 0 if rule in degraded else n)
 
 
 def _selftest(fb, R):
